@@ -21,6 +21,11 @@ inline std::string qname_for(int kind)
 {
 	if (kind == 0) return "pab.t.co";
 	if (kind == 1) return "paaaaaaaaaaaaaaaaaaaaaaaaaaaaaaaaa.tunnel.example.com";
+	if (kind == 3) {   // labels of exactly 63 characters, the longest DNS allows
+		std::string n = "p";
+		while (n.size() < 191) n += ((n.size() + 1) % 64 == 0) ? '.' : (char)('a' + n.size() % 26);
+		return n + ".t.example.com";
+	}
 	std::string n = "p";
 	while (n.size() < 253 - 14) { n += (n.size() % 58 == 57) ? '.' : (char)('a' + n.size() % 26); }
 	if (n.back() == '.') n.back() = 'z';
@@ -78,7 +83,7 @@ inline int classify(const Bytes &payload, const Outcome &o)
 
 inline std::string conf_str(const Conf &c)
 {
-	char b[128]; snprintf(b, sizeof b, "type=%s downenc=%c qname=%s callerbuf=%d", QTN[c.qt], DE[c.de], c.namekind == 0 ? "short" : (c.namekind == 1 ? "typical" : "253chars"), c.buflen);
+	char b[128]; snprintf(b, sizeof b, "type=%s downenc=%c qname=%s callerbuf=%d", QTN[c.qt], DE[c.de], c.namekind == 0 ? "short" : (c.namekind == 1 ? "typical" : (c.namekind == 2 ? "253chars" : "63charlabels")), c.buflen);
 	return b;
 }
 
